@@ -305,7 +305,9 @@ fn run_inner(ch: &mut Chooser, partial: &mut Option<RunOutcome>) -> RunOutcome {
             if accepted {
                 if f.hdr.source == parent_now0 && r.state_before == PState::Slave && path_trace {
                     if let Some(t) = pt {
-                        current_path = t.value.chunks_exact(8).map(|c| <[u8; 8]>::try_from(c).unwrap()).collect();
+                        // the data set holds at most 128 identities (MAX_DATA_LEN / 8); a longer received
+                        // path cannot be re-emitted anyway (it no longer fits an Announce)
+                        current_path = t.value.chunks_exact(8).take(128).map(|c| <[u8; 8]>::try_from(c).unwrap()).collect();
                         let got: Vec<[u8; 8]> = node.inst.path_trace_ds().list.iter().map(|c| c.0).collect();
                         if got != current_path {
                             viol.push(("C15.path_trace_ds_not_updated".into(), String::new(), format!("path_trace_ds has {} entries after a parent Announce with {} entries", got.len(), current_path.len())));
